@@ -603,6 +603,7 @@ pub fn evaluate_single(cfg: &RunCfg, rec: &RunRecord) -> (Vec<Finding>, Facts) {
         let m = Model { len, sized };
         let mut ops: Vec<LinOp> = Vec::new();
         let mut representable = true;
+        let mut chunk_flagged = false;
         for (ci, c) in calls.iter().enumerate() {
             let act = match (&c.kind, &c.res) {
                 (k, Res::Item { .. }) if k.is_pull() => {
@@ -615,10 +616,30 @@ pub fn evaluate_single(cfg: &RunCfg, rec: &RunRecord) -> (Vec<Finding>, Facts) {
                         }
                     }
                 }
-                (k, Res::Chunk { begin, announced, impossible, .. }) if k.is_pull() => {
+                (k, Res::Chunk { begin, announced, impossible, items, exhausted, .. }) if k.is_pull() => {
                     if *impossible || c.arg == 0 {
                         representable = false;
                         continue;
+                    }
+                    // what the chunk actually yields must be the cursor's positions, in order
+                    let consistent = items
+                        .iter()
+                        .enumerate()
+                        .all(|(j, o)| position(cfg, o) == (*begin + j) as i128)
+                        && items.len() <= *announced
+                        && (!*exhausted || items.len() == *announced);
+                    if !consistent && !chunk_flagged {
+                        chunk_flagged = true;
+                        out.push(f(
+                            if has_skip { "C06" } else { "C04" },
+                            "chunk-not-cursor-positions",
+                            format!(
+                                "{} announced positions [{begin}, {}) but yielded {:?}: not what a sequential cursor delivers",
+                                describe_call(rec, ci),
+                                begin + announced,
+                                items.iter().map(|o| position(cfg, o)).collect::<Vec<_>>()
+                            ),
+                        ));
                     }
                     Act::Pull(c.arg, Some((*begin, *announced)))
                 }
